@@ -181,6 +181,7 @@ func (te *tableEngine) CreateTable(tableSetting TableSetting) (*Table, error) {
 		Timeout: 2,
 		OnOpenGameReady: func(state open_game_manager.OpenGameState) {
 			te.verifHook("gate.fire")
+			defer te.verifHook("gate.done")
 			// 小於等於一個人，不開局
 			if len(state.Participants) <= 1 {
 				return
